@@ -74,6 +74,12 @@ def call_isinstance(I, e):
             names.append(t.id)
         elif isinstance(t, ast.Attribute):
             names.append(t.attr)
+        elif isinstance(t, ast.Call):
+            tv = I.eval(t)
+            if isinstance(tv, SClass):
+                names.append(tv.name)
+            else:
+                raise Unsupported("isinstance against a computed type")
         else:
             raise Unsupported("isinstance type argument")
     terms = [I.isinstance_term(v, n) for n in names]
@@ -103,6 +109,11 @@ def apply_value(I, fv, pos, kw, node) -> SV:
 
 # ------------------------------------------------------------------------------------------------
 def call_builtin(I, name, pos, kw, node):
+    hook0 = getattr(I, "builtin_hook", None)
+    if hook0 and name in ("list", "tuple", "type", "dict"):
+        r = hook0(name, pos, kw, node)
+        if r is not None:
+            return r
     if name == "len":
         return I.len_of(pos[0], node)
     if name == "str":
@@ -123,8 +134,6 @@ def call_builtin(I, name, pos, kw, node):
         return d
     if name == "copy":
         return copy_value(I, pos[0], node)
-    if name == "type":
-        return SOpaque("type")
     if name == "re.search":
         return re_search(I, pos, node)
     hook = getattr(I, "builtin_hook", None)
@@ -132,6 +141,8 @@ def call_builtin(I, name, pos, kw, node):
         r = hook(name, pos, kw, node)
         if r is not None:
             return r
+    if name == "type":
+        return SOpaque("type")
     raise Unsupported(f"builtin {name}")
 
 
@@ -230,6 +241,10 @@ def call_method(I, obj, meth, pos, kw, node):
             raise Unsupported(f"HTML.{meth} has no contract")
         return call_function(I, q, [obj] + pos, kw, node)
     q = I.contracts.method(cls, meth) if cls else None
+    if q is None and cls and hasattr(I, "resolve_method"):
+        rq = I.resolve_method(cls, meth)
+        if rq is not None and rq.startswith("htmltools."):
+            return inline_call(I, rq, [obj] + pos, kw, node)      # small helper without a contract: executed in place
     if q is not None:
         if is_static(I.src.find(q)):
             return call_function(I, q, pos, kw, node)
@@ -328,7 +343,17 @@ def bind_params(I, qualname, pos, kw, node):
     for n in names:
         if pos:
             if isinstance(pos[0], Star):
-                raise Unsupported(f"*args of unknown length spread over named parameters of {qualname}")
+                sv = pos[0].v
+                sh = I.list_shape(sv) if isinstance(sv, SAdt) else None
+                if sh is None or len(pos) != 1:
+                    raise Unsupported(f"*args of unknown length spread over named parameters of {qualname}")
+                nil, cons, tl = sh
+                if not I.branch(I.is_c(cons, sv.t)):
+                    raise _Raise(SExc("TypeError", []), getattr(node, "lineno", None))      # missing required positional argument
+                c = I.ctor(cons)
+                bound[n] = I.wrap(c.fields[0][1], I.acc(cons, c.fields[0][0], sv.t))
+                pos[0] = Star(SAdt(sv.sort, I.acc(cons, tl, sv.t), pyclass=sv.pyclass))
+                continue
             bound[n] = pos.pop(0)
     if a.vararg is not None:
         if any(isinstance(x, Star) for x in pos):
@@ -418,7 +443,7 @@ def call_function(I, qualname, pos, kw, node, bound_self=False) -> SV:
     c = I.contracts.get(qualname)
     if c.harness is not None and getattr(c, "call_model", None):
         return c.call_model(I, pos, kw, node)
-    bound = bind_params(I, qualname, pos, kw, node)
+    bound = bind_params(I, c.body_name(I.src), pos, kw, node)
     env = contract_env(I, c, bound, node)
     line = getattr(node, "lineno", "?")
     short = qualname.replace("htmltools.", "")
@@ -434,7 +459,7 @@ def call_function(I, qualname, pos, kw, node, bound_self=False) -> SV:
             raise _Raise(SExc(exc, []), line)
     for m, pexpr in c.post.items():
         newv = I.from_val(spec_term(I, pexpr, env, c.name, want=c.sort_of(m)))
-        tgt = arg_expr(I, qualname, m, node, bound_self)
+        tgt = arg_expr(I, c.body_name(I.src), m, node, bound_self)
         if tgt is None:
             raise Unsupported(f"cannot locate the argument expression for mutated parameter `{m}` of {qualname}")
         I.writeback(tgt, newv, node)
